@@ -108,7 +108,9 @@ def gen_jobs(rng, n):
         for k in range(rng.randrange(3, 12)):
             name, content = gen_file(rng, k)
             files[name] = content
-        jobs.append({"id": "g%d" % i, "tags": tags, "files": files})
+        # some files are symlinks to regular files elsewhere (go/build and the .inc.js lister must follow them)
+        links = [n for n in files if rng.random() < 0.12]
+        jobs.append({"id": "g%d" % i, "tags": tags, "files": files, "links": links})
     return jobs
 
 
@@ -224,6 +226,8 @@ def run(tier, seed):
             impl.append("go=%d js=%d" % (1 if nm in go else 0, 1 if nm in js else 0))
         groups.append((start, len(ops), r.get("err") == "nogo"))
         chk.count("packages:" + kind + (":nogo" if r.get("err") == "nogo" else ""))
+        for nm in j.get("links", []):
+            chk.count("symlinked:" + ("incjs" if nm.endswith(".inc.js") else ("go" if nm.endswith(".go") else "other")))
     # shadow ops: the same files with the _test flag cleared tell whether a test file would build, which decides
     # whether the directory is a package at all (go/build NoGoError => nothing of the directory is used, incl. .inc.js)
     def untest(op):
